@@ -47,7 +47,7 @@ class Exec:
     def ev(self, e) -> Rat:
         if isinstance(e, bool):
             raise AnalysisError("lnexec: bool in arithmetic")
-        if isinstance(e, (int, float)):
+        if isinstance(e, (int, float, Fraction)):
             return Rat.const(Fraction(e))
         if not isinstance(e, Node):
             raise AnalysisError(f"lnexec: cannot evaluate {type(e).__name__}")
